@@ -102,6 +102,32 @@ def register(R):
   R.add(Contract(f'{AU}::MeanState.merge', PROPS, types=dict(self='MeanState', other='MeanState'),
                  modifies=['self.total', 'self.count'],
                  ensures=['self.total == old(self.total) + other.total', 'self.count == old(self.count) + other.count']))
+  # TupleMeanState (two columns): column-wise MeanState merges; an empty receiver gets its OWN fresh states (never the operand's)
+  R.cls('TupleMeanState', dict(states='tuple[]'))
+  def _tms(self_cols, other_cols):
+    def setup(it, env):
+      env['self'].f['states'] = VTuple([it.fresh('MeanState', f'self.states.{i}') for i in range(self_cols)])
+      env['other'].f['states'] = VTuple([it.fresh('MeanState', f'other.states.{i}') for i in range(other_cols)])
+    return setup
+  OKEPT = ['other.states[0].total == old(other.states[0].total) and other.states[0].count == old(other.states[0].count)',
+           'other.states[1].total == old(other.states[1].total) and other.states[1].count == old(other.states[1].count)']
+  R.add(Contract(f'{AU}::TupleMeanState.merge', PROPS, variant='both-non-empty', types=dict(self='TupleMeanState', other='TupleMeanState'),
+                 setup=_tms(2, 2), modifies=['self.states[0].total', 'self.states[0].count', 'self.states[1].total', 'self.states[1].count'],
+                 ensures=['self.states[0].total == old(self.states[0].total) + other.states[0].total and self.states[0].count == old(self.states[0].count) + other.states[0].count',
+                          'self.states[1].total == old(self.states[1].total) + other.states[1].total and self.states[1].count == old(self.states[1].count) + other.states[1].count'] + OKEPT,
+                 bounded='bounded_algebra'))
+  R.add(Contract(f'{AU}::TupleMeanState.merge', PROPS, variant='an-empty-state', types=dict(self='TupleMeanState', other='TupleMeanState'),
+                 setup=_tms(2, 0), modifies=[],
+                 ensures=['len(self.states) == 2', 'len(other.states) == 0'], bounded='bounded_algebra',
+                 note='a freshly created state is the neutral element: nothing raised, nothing changed (frame) - D33'))
+  R.add(Contract(f'{AU}::TupleMeanState.merge', PROPS, variant='into-a-fresh-state', types=dict(self='TupleMeanState', other='TupleMeanState'),
+                 setup=_tms(0, 2), modifies=['self.states'],
+                 ensures=['len(self.states) == 2',
+                          'self.states[0].total == other.states[0].total and self.states[0].count == other.states[0].count',
+                          'self.states[1].total == other.states[1].total and self.states[1].count == other.states[1].count',
+                          # the receiver has its own states: a later merge into it cannot reach the operand
+                          'self.states[0] is not other.states[0] and self.states[1] is not other.states[1] and self.states[0] is not self.states[1]'] + OKEPT,
+                 bounded='bounded_algebra'))
   R.add(Contract(f'{AU}::MeanState.result', PROPS, types=dict(self='MeanState'), ret='rreal',
                  ensures=['result == sdiv(self.total, self.count)']))
   R.add(Contract(f'{CL}::_ConfusionMatrix.__iadd__', PROPS, types=dict(self='_ConfusionMatrix', other='_ConfusionMatrix'),
